@@ -3,10 +3,10 @@ package main
 // Top level: verify one function under contract, or one lemma.
 
 import (
-	"os"
 	"fmt"
 	"go/types"
 	"math/big"
+	"os"
 	"runtime/debug"
 	"strings"
 
